@@ -68,9 +68,9 @@ def sigDispatchTable : List ((String × Int) × Disp) := [
   (("rsa", (-259)), .pkcs1v15 "sha512"),
   (("rsa", (-258)), .pkcs1v15 "sha384"),
   (("rsa", (-257)), .pkcs1v15 "sha256"),
-  (("rsa", (-39)), .pss "sha512" "sha512" true),
-  (("rsa", (-38)), .pss "sha384" "sha384" true),
-  (("rsa", (-37)), .pss "sha256" "sha256" true),
+  (("rsa", (-39)), .pss "sha512" "sha512" "max"),
+  (("rsa", (-38)), .pss "sha384" "sha384" "max"),
+  (("rsa", (-37)), .pss "sha256" "sha256" "max"),
   (("rsa", (-36)), .libExc "UnsupportedAlgorithm"),
   (("rsa", (-8)), .libExc "UnsupportedAlgorithm"),
   (("rsa", (-7)), .libExc "UnsupportedAlgorithm"),
